@@ -199,6 +199,11 @@ def lift(fn, args, node):
             elems.append(Sc(a.ety, body))
         else:
             elems.append(a)
+    if len(bases) > 4:
+        # too wide for kzip4: materialise the composite arguments first
+        if all((not isinstance(a, Vec)) or len(a.bases) == 1 for a in args):
+            fail(node, "pointwise expression over more than 4 base vectors")
+        return lift(fn, [rebase(a) if isinstance(a, Vec) and len(a.bases) > 1 else a for a in args], node)
     out = fn(*elems)
     if isinstance(out, Num):
         fail(node, "constant vector")
@@ -267,6 +272,8 @@ class Executor:
                 fail(n, f"unknown field of {base.name}")
             if isinstance(base, Vec) and n.attr == "shape":
                 return Static(("len", base))
+            if isinstance(base, (Sc, Num, Vec)) and n.attr == "dtype":
+                return Static("dtype")
             if isinstance(base, (Sc, Num)) and n.attr == "ndim":
                 return Num(0)
             if isinstance(base, Vec) and n.attr == "ndim":
@@ -560,7 +567,8 @@ class Executor:
                 for k in set(s1) | set(s2):
                     if s1.get(k) is not s2.get(k):
                         if k not in s1 or k not in s2:
-                            fail(s, f"{k} bound in one branch only")
+                            sc.pop(k, None)       # bound in one branch only: not usable afterwards
+                            continue
                         sc[k] = self.select(c, s1[k], s2[k], s)
                 continue
             if (isinstance(s, ast.Expr) and isinstance(s.value, ast.Call) and isinstance(s.value.func, ast.Attribute)
@@ -698,7 +706,7 @@ def _p_sum(ex, n, args, kwargs):
 
 
 def _p_concatenate(ex, n, args, kwargs):
-    if len(args) != 1 or not isinstance(args[0], tuple):
+    if len(args) != 1 or not isinstance(args[0], (tuple, list)):
         fail(n, "concatenate")
     if "axis" in kwargs and not (isinstance(kwargs["axis"], Num) and kwargs["axis"].q == 0):
         fail(n, "concatenate axis")
@@ -720,6 +728,8 @@ def _p_scan(ex, n, args, kwargs):
     if not isinstance(f, Closure):
         fail(n, "scan body must be an inline function")
     single = isinstance(xs, Vec)
+    if not single and not isinstance(xs, (tuple, list)):
+        fail(n, "scan inputs")
     vs = [xs] if single else [vec_of(v, n) for v in xs]
     if not 1 <= len(vs) <= 3 or any(v.ety != "R" for v in vs):
         fail(n, "scan over unsupported inputs")
